@@ -29,6 +29,7 @@ type op struct {
 	nalt    func() int // number of internal alternatives once chosen (ready select cases, env answers)
 	alt     int        // alternative picked by the scheduler
 	poll    bool       // a select that fell through to default: the thread is spinning
+	idle    bool       // a wait for "enough time has passed": also enabled when nothing else can run
 	obj     uintptr    // identity of the object touched (for the "threads met" statistic)
 }
 
@@ -215,6 +216,15 @@ func Run(main func(), prefix []int, horizon int, envSince bool, observer func(st
 		if held != nil && !curEnabled && len(order) == 0 {
 			order = append(order, held) // nothing else can run: the slow thread gets its turn
 		}
+		if !curEnabled && len(order) == 0 {
+			// everything is parked: time passes, so whoever waits for an instant gets it
+			for _, t := range s.threads {
+				if !t.done && t.op.idle {
+					order = append(order, t)
+					break
+				}
+			}
+		}
 		switch {
 		case curEnabled && !polled:
 			order = append([]*thread{s.cur}, order...)
@@ -336,6 +346,19 @@ func GoNamed(name string, f func()) {
 
 // Yield is a plain scheduling point (function-entry yields of the C18 build).
 func Yield() { point(&op{kind: "yield", enabled: alwaysEnabled}) }
+
+// WaitStep parks the calling harness thread until the scheduler has executed k steps, or until
+// nothing else can run (time passes while everybody waits).
+func WaitStep(kind string, k int) {
+	if S == nil {
+		for Step() < k {
+			time.Sleep(200 * time.Microsecond)
+		}
+		return
+	}
+	s := S
+	point(&op{kind: kind, enabled: func() bool { return s.Steps >= k }, idle: true})
+}
 
 // WaitUntil parks the calling harness thread until cond holds.
 func WaitUntil(kind string, cond func() bool) {
@@ -614,7 +637,7 @@ func AfterFunc(d time.Duration, f func()) *Timer {
 			f()
 		}
 	})
-	th.op = &op{kind: "timer", enabled: func() bool { return s.Steps >= rel }}
+	th.op = &op{kind: "timer", enabled: func() bool { return s.Steps >= rel }, idle: true}
 	return t
 }
 
